@@ -414,6 +414,7 @@ class SimDisk:
         self.on_file_completed: Optional[Callable[[str, bytes], None]] = None
         self.context: Callable[[], dict] = lambda: {}
         self.opcount: dict[str, int] = {}
+        self._blobs: dict[bytes, bytes] = {}
         self.alive = True
         # size of the user-space write buffer of files the SUT opens with default buffering.  CPython takes it from
         # st_blksize (4 KiB ... 1 MiB depending on the file system), so it is a knob the scheduler may turn per incarnation
@@ -438,7 +439,11 @@ class SimDisk:
             fp = os.path.join(self.dir, name)
             if os.path.isfile(fp) and not os.path.islink(fp):
                 with io.FileIO(fp, "r") as f:
-                    out[name] = f.read()
+                    data = f.read()
+                # consecutive interception points see the same files: keep one bytes object per distinct content
+                # (thousands of crash worlds of a run with multi-megabyte snapshots once took 10 GB and the OOM killer)
+                key = hashlib.sha256(data).digest()
+                out[name] = self._blobs.setdefault(key, data)
             else:
                 out[name] = None  # directory / special: presence only
         return out
